@@ -10,21 +10,60 @@ EXPLANATION = ("PARTIAL, every obligation bounded (K5). Decided: (1) the outer C
                "exactly one error, elements without an atomic weight rejected, the scanner runs under the C numeric locale and the caller's locale is "
                "restored (ghost model of setlocale), temporaries freed on both outcomes (--memory-leak-check); (2) add_compound_data for 1-2 x 1-2 "
                "(thorough: 1-3 x 1-3) elements: the result lists exactly the union of the two element lists, strictly ascending; (3) the REAL scanner "
-               "CompoundParserSimple on a fixed list of formula shapes (A, AB, B3A, AB2A, (AB)2, AbCdB3, ((A)), A(AB), C(BA), A(BC)2, (AB)(CA)3, Ab2(CdA); thorough also B(A(CD)2)3, D(CA)B(DA)) with the atomic number behind every "
+               "CompoundParserSimple on a fixed list of formula shapes (A, AB, B3A, AB2A, (AB)2, AbCdB3, ((A)), A(AB), C(BA), A(BC)2, (AB)(CA)3, Ab2(CdA), A2.5(B0.5A)4; thorough also B(A(CD)2)3, D(CA)B(DA)) with the atomic number behind every "
                "letter symbolic (letters may coincide or be unknown symbols) and every subscript value symbolic (or zero): accepted exactly when "
                "all symbols are known and no subscript is zero, exactly one error otherwise, elements strictly ascending without duplicates and equal "
-               "as a set to the symbols of the formula, and every bsearch call is made on a strictly ascending list (its C11 precondition). "
-               "NOT decided by this family: acceptance/rejection of arbitrary strings, atom counts equal to the algebraic expansion, invariance under "
-               "reordering and group expansion, bit-exact molar mass / mass fractions and the weighted sums wA*fA + wB*fB of add_compound_data (attempted in the "
+               "as a set to the symbols of the formula, and every bsearch call is made on a strictly ascending list (its C11 precondition); (4) the same "
+               "shapes with their subscripts as written (strtod exact) and the atomic numbers still symbolic: the atom count of every element equals "
+               "the algebraic expansion of the formula - the sum, over the occurrences of symbols mapped to that element, of the product of the "
+               "enclosing multipliers - computed by an independent recursive-descent evaluator (props/C07.py: expand) and covering coinciding "
+               "symbols, repeats across groups, nested groups and fractional subscripts. "
+               "NOT decided by this family: acceptance/rejection of arbitrary strings, atom counts for formulas outside the shape list or with symbolic "
+               "subscripts, invariance under reordering and group expansion (only as far as both rewrites are in the shape list), bit-exact molar mass / mass fractions and the weighted sums wA*fA + wB*fB of add_compound_data (attempted in the "
                "thorough tier, no back end finishes even for 1 x 1 elements).")
 ASSUMPTIONS = [
     "assumed contract of CompoundParserSimple (for the lemmas on CompoundParser only): 0 + exactly one error, or 1..N strictly ascending atomic numbers in 1..107 with atom counts in [1e-6, 1e6) in one malloc'ed array",
     "TABLES_WF: atomic weights are absent (<= 0) or in [1, 1000) (audited natively)",
     "assumed contract of setlocale (C11 7.11.1.1): a non-NULL argument installs that locale and returns the new name, NULL queries; the returned string is overwritten by the next call",
-    "assumed libc contracts in executable form (scanner / add_compound_data lemmas): qsort sorts exactly the range passed with the comparison function; bsearch requires an ascending array and returns the matching entry or NULL; realloc preserves the old contents and calloc zero-fills (both typed: harness/realloc_typed.h is force-included into xraylib-parser.c and passes the element size of each call site); strndup copies at most n characters; strtod converts the whole numeral to a value in [1e-6, 1e6) or to 0; the ctype predicates are those of the C locale (-D__NO_CTYPE selects the function forms, CBMC's models)",
+    "assumed libc contracts in executable form (scanner / add_compound_data lemmas): qsort sorts exactly the range passed with the comparison function; bsearch requires an ascending array and returns the matching entry or NULL; realloc preserves the old contents and calloc zero-fills (both typed: harness/realloc_typed.h is force-included into xraylib-parser.c and passes the element size of each call site); strndup copies at most n characters; strtod converts the whole numeral to a value in [1e-6, 1e6) or to 0 (shape lemmas) / to its exact value (count lemmas: short numerals with dyadic values); the ctype predicates are those of the C locale (-D__NO_CTYPE selects the function forms, CBMC's models)",
     "assumed contract of the symbol table lookup (bsearch over MendelArraySorted): a known symbol yields its atomic number in 1..107, an unknown one NULL",
     "bounded: N = 3 (quick) / 5 (thorough) elements; add_compound_data shapes 1-2 x 1-2 (quick) / 1-3 x 1-3 (thorough); scanner: the fixed shape list in harness/h_parser.c",
 ]
+
+
+def expand(formula):
+    """independent recursive-descent evaluation of a formula shape: [(letter index, multiplier)] for every symbol occurrence"""
+    pos = 0
+
+    def number():
+        nonlocal pos
+        st = pos
+        while pos < len(formula) and (formula[pos].isdigit() or formula[pos] == "."):
+            pos += 1
+        return float(formula[st:pos]) if pos > st else 1.0
+
+    def seq():
+        nonlocal pos
+        out = []
+        while pos < len(formula) and formula[pos] != ")":
+            if formula[pos] == "(":
+                pos += 1
+                inner = seq()
+                assert formula[pos] == ")"
+                pos += 1
+                m = number()
+                out += [(l, w * m) for l, w in inner]
+            else:
+                assert formula[pos].isupper(), formula
+                letter = ord(formula[pos]) - 65
+                pos += 1
+                if pos < len(formula) and formula[pos].islower():
+                    pos += 1
+                out.append((letter, number()))
+        return out
+    r = seq()
+    assert pos == len(formula), formula
+    return r
 
 
 def groups(sc, tier):
@@ -68,6 +107,15 @@ def groups(sc, tier):
                         flags=["--unwindset", ",".join("%s:6" % l for l in ("qsort.0", "qsort.1", "bsearch.0", "bsearch.1", "xrlv_realloc.0", "xrlv_realloc.1",
                                                                           "__CPROVER_file_local_xraylib_parser_c_CompoundParserSimple.6"))],
                         bounded="formula shape '%s'; atomic numbers behind the letters and subscript values symbolic" % txt))
+        occ = expand(txt)
+        gs.append(Group("C07.K5.scanner_counts.%d" % k, "K5", "lemma_scanner_shape", sources=["src/xraylib-parser.c", "src/xraylib-aux.c"], extra=["harness/h_parser.c"],
+                        export_local=True, defines=["-D__NO_CTYPE", "-include", os.path.join(VERIF, "harness/realloc_typed.h")],
+                        harness_defines=["-DNMAXEL=%d" % n, "-DLEMMA_SCAN", "-DSHAPE=%d" % k, "-DCONCRETE_SUBSCRIPTS", "-DNOCC=%d" % len(occ),
+                                         "-DOCC={%s}" % ",".join("{%d,%r}" % (l, w) for l, w in occ)],
+                        backends=("sat", "cvc5"), timeout=900, unwind=20, functions=["CompoundParserSimple", "compareCompoundAtoms"],
+                        flags=["--unwindset", ",".join("%s:6" % l for l in ("qsort.0", "qsort.1", "bsearch.0", "bsearch.1", "xrlv_realloc.0", "xrlv_realloc.1",
+                                                                          "__CPROVER_file_local_xraylib_parser_c_CompoundParserSimple.6"))],
+                        bounded="formula shape '%s' with its subscripts as written; atomic numbers behind the letters symbolic (letters may coincide)" % txt))
     return gs
 
 
